@@ -246,7 +246,7 @@ def large_combos(k, c):
             elif prior:                      # no closed form for the stationary vector of C + prior
                 flags = [False]
             else:
-                flags = [False] if dt == "int64" else []
+                flags = [False]
                 if dt == "float32" and not fast:
                     eig = False              # single-precision row weights x slow mixing: pi only to ~1e-4
                 elif n <= 40:
